@@ -69,7 +69,7 @@ def _oracle(args, obs):
 def c10_ops(t: P2, p: int, names: int, second: int) -> bool:
     """
     pre: pinned(p=p, h0=t[0], l0=t[1], names=names, second=second)
-    pre: 0 <= p <= 2 and 0 <= names < 4 and 0 <= second < 8
+    pre: ((0 <= p) & (p <= 2)) & ((0 <= names) & (names < 4)) & ((0 <= second) & (second < 8))
     pre: cfg_canonical(t, p, 2, 2, 2)
     post: _
     """
